@@ -183,6 +183,47 @@ def run(ck: Check):
                 if abs(is3 - p3) > 6 * sd:
                     ck.disagree("raw gumbel_hard: the frequency of the sampled gate depends on the temperature (it must be softmax(logits))",
                                 case, expected=p3, observed=is3, signature={"what": "raw-gate-frequency", "layer": "dense"})
+    # reduced precision (a layer converted with .bfloat16() / .half()): the noisy logits have 8 / 11 significant bits, so two gates tie
+    # for the row maximum in about one row of a few hundred - the hard sample must still be ONE gate (a mask of the maxima would
+    # select two or three).  Checked on the sampling primitive and through a dense layer and a convolution
+    import torchlogix.functional as Fn
+    n_rows = 40000 if ck.tier == "quick" else 400000
+    for dt in (torch.float32, torch.bfloat16, torch.float16):
+        for init in ("residual", "random"):
+            torch.manual_seed(ck.seed + 99)
+            logits = torch.zeros(n_rows, 16)
+            if init == "residual":
+                logits[:, 3] = 5.0
+            else:
+                logits = torch.randn(n_rows, 16)
+            case = {"kind": "hard-sample-one-hot", "dtype": str(dt), "logits": init, "rows": n_rows}
+            ck.case(case, nontrivial=dt != torch.float32, kind="hard-sample-one-hot")
+            with torch.no_grad():
+                y = Fn.gumbel_softmax(logits.to(dt), tau=1.0, hard=True).float()
+            ones = (y.round() == 1).sum(-1)
+            off = float((y - y.round()).abs().max())
+            if not bool(torch.isfinite(y).all()) or int((ones != 1).sum()) or off > 0.02 or float(y.round().min()) < 0:
+                ck.disagree("the hard Gumbel-softmax sample is not one gate per row (rows with several selected gates / values away from 0 and 1)",
+                            dict(case, rows_not_one_hot=int((ones != 1).sum()), most_gates_in_a_row=int(ones.max()), farthest_from_0_1=off),
+                            signature={"layer": "primitive", "param": "raw", "mode": "gumbel_hard", "what": "single-gate"})
+    for dt in (torch.bfloat16, torch.float16):
+        torch.manual_seed(ck.seed + 101)
+        d = LogicDense(3, 4000, device="cpu", weight_init="random", forward_sampling="gumbel_hard", temperature=1.0).to(dt)
+        c = LogicConv2d(in_dim=(3, 3), device="cpu", channels=1, num_kernels=600, tree_depth=1, receptive_field_size=2,
+                        weight_init="random", forward_sampling="gumbel_hard", temperature=1.0).to(dt)
+        for name, l, xb in (("dense", d, torch.tensor(nets.all_rows(3), dtype=torch.float32)), ("conv2d", c, (torch.rand(8, 1, 3, 3) > 0.5).float())):
+            l.train()
+            case = {"layer": name, "param": "raw", "mode": "gumbel_hard", "dtype": str(dt)}
+            ck.case(case, nontrivial=True, kind="layer-gumbel_hard-lowprec")
+            try:
+                with torch.no_grad():
+                    y = l(xb.to(dt)).float()
+            except Exception as e:
+                continue                      # a layer that refuses the dtype is not a wrong sample
+            if not bool(torch.isfinite(y).all()) or float(torch.minimum(y.abs(), (y - 1).abs()).max()) > 0.05:
+                ck.disagree("gumbel_hard training output on Boolean inputs is not Boolean (not a single gate per neuron)",
+                            dict(case, largest=float(y.max()), outside=int((torch.minimum(y.abs(), (y - 1).abs()) > 0.05).sum())),
+                            signature={"layer": name, "param": "raw", "mode": "gumbel_hard", "what": "single-gate"})
     # every tree level of a Walsh convolution samples: a node whose form is the constant c (coefficients (c,0,0,0)) is 1 with
     # probability logistic(c) in gumbel_hard, whatever its inputs and whatever the temperature - checked at the root of depth-1
     # and depth-2 trees (the leaves carry random coefficients), and switching the sampling mode after a training forward is honoured
